@@ -50,6 +50,7 @@ Solve == /\ pc = "in" /\ pc' = "out" /\ UNCHANGED inp
                      [] Kind = "align" ->
                           [median |-> AlignMedian(inp.ref, inp.est), mean |-> AlignMean(inp.ref, inp.est),
                            pc |-> PercentCorrect(inp.ref, inp.est, inp.w),
+                           offsets |-> [k \in 1..Len(inp.ref) |-> inp.est[k] - inp.ref[k]],      \* signed: estimate minus reference
                            haspcs |-> (inp.dur # 0 \/ inp.ref[Len(inp.ref)] > inp.ref[1]),
                            pcs |-> IF inp.dur # 0 \/ inp.ref[Len(inp.ref)] > inp.ref[1] THEN PCS(inp.ref, inp.est, inp.dur) ELSE <<0, 1>>]
                      [] Kind = "melody" ->
